@@ -8,7 +8,7 @@
 
 static std::map<std::string, hz::PropFn> registry() {
   return {
-    {"C01", prop_c01}, {"C02", prop_c02}, {"C03", prop_c03}, {"C04", prop_c04}, {"C05", prop_c05}, {"C10", prop_c10}, {"C11", prop_c11}, {"C16", prop_c16}, {"C06", prop_c06}, {"C12", prop_c12}, {"C13", prop_c13}, {"C14", prop_c14}, {"C15", prop_c15}, {"C07", prop_c07}, {"C08", prop_c08}, {"C09G", prop_c09_grammar}, {"C17", prop_c17}, {"C19", prop_c19},
+    {"C01", prop_c01}, {"C02", prop_c02}, {"C03", prop_c03}, {"C04", prop_c04}, {"C05", prop_c05}, {"C10", prop_c10}, {"C11", prop_c11}, {"C16", prop_c16}, {"C06", prop_c06}, {"C12", prop_c12}, {"C13", prop_c13}, {"C14", prop_c14}, {"C15", prop_c15}, {"C07", prop_c07}, {"C08", prop_c08}, {"C09G", prop_c09_grammar}, {"C17", prop_c17}, {"C20", prop_c20}, {"C19", prop_c19},
   };
 }
 
@@ -26,6 +26,7 @@ int main(int argc, char **argv) {
     if (cid.compare(0, 2, "R|") == 0) return replay_reject(cid);
     if (cid.compare(0, 3, "FZ|") == 0) return replay_fz(cid);
     if (cid.compare(0, 4, "C17|") == 0 || cid.compare(0, 4, "C19|") == 0) return replay_fi(cid);
+    if (cid.compare(0, 4, "C20|") == 0) return replay_cli(cid);
     if (cid.compare(0, 4, "C07|") == 0 || cid.compare(0, 4, "C08|") == 0) return replay_buf(cid);
     if (cid.size() > 4 && cid[0] == 'C' && cid[3] == '|') return replay_hist(prop, cid, 1);
     if (prop == "C11" || prop == "C16") return replay_modes(prop, cid);
